@@ -394,6 +394,31 @@ public:
             return;
         if (c->isUnsignedIntegerType() && !c->isBooleanType())
             o["u"] = true;
+        if (c->isIntegerType() && !c->isBooleanType() && !c->isEnumeralType())
+            o["bits"] = (int64_t)ctx.getTypeSize(c);
+    }
+
+    // T&& / Args&&... where T is a template parameter of the function template itself (a forwarding reference)
+    static bool isForwardingRef(const FunctionDecl* fd, QualType t)
+    {
+        if (auto* pe = t->getAs<PackExpansionType>())
+            t = pe->getPattern();
+        auto* rr = t->getAs<RValueReferenceType>();
+        if (!rr)
+            return false;
+        QualType pt = rr->getPointeeType();
+        if (pt.hasQualifiers())
+            return false;
+        auto* tp = pt->getAs<TemplateTypeParmType>();
+        if (!tp)
+            return false;
+        const FunctionTemplateDecl* ftd = fd->getDescribedFunctionTemplate();
+        if (!ftd)
+            if (auto* prim = fd->getPrimaryTemplate())
+                ftd = prim;
+        if (!ftd)
+            return false;
+        return tp->getDepth() == ftd->getTemplateParameters()->getDepth();
     }
 
     std::string declKey(const ValueDecl* d, QualType& outTy)
@@ -1442,6 +1467,8 @@ public:
             json::Object po;
             po["name"] = p->getNameAsString();
             typeFlags(po, p->getType());
+            if (isForwardingRef(fd, p->getType()))
+                po["fwd"] = true;
             if (p->getType()->isReferenceType())
             {
                 po["ref"] = p->getType()->isRValueReferenceType() ? "rvalue" : "lvalue";
@@ -1629,6 +1656,8 @@ public:
                     fo["qual"] = qualName(vd);
                     typeFlags(fo, vd->getType());
                     fo["static"] = true;
+                    if (vd->getTLSKind() != VarDecl::TLS_None)
+                        fo["thread_local"] = true;
                     fo["ref"] = false;
                     fo["ptr"] = vd->getType()->isPointerType();
                     fields.push_back(std::move(fo));
@@ -1757,6 +1786,7 @@ public:
         root["files"] = std::move(files);
         root["functions"] = std::move(ex.functions);
         root["classes"] = std::move(ex.classes);
+        root["size_t_bits"] = (int64_t)ctx.getTypeSize(ctx.getSizeType());
         std::error_code ec;
         llvm::raw_fd_ostream os(g_out, ec);
         if (ec)
